@@ -4,13 +4,18 @@
    (SendHijackReply + Stop), VHijackCont (SendHijackReply + Continue), VDirect (SendDirectResponse + Stop), VReMatch, VReChoose. *)
 From Coq Require Import List ZArith Bool Sorted.
 From RecordUpdate Require Import RecordSet.
+(* Model.ProxyCheck (the correspondence checker used by the case shards) is imported so that it is built with this file *)
+From MV Require Import Model.ProxyCheck.
 From MV Require Import Model.Proxy Model.ProxySpec Proofs.ProxyReach Proofs.ProxyFamily Proofs.ProxyFam Proofs.ProxyRefute
-  Proofs.ProxyThm Proofs.ProxyFilters Gen.ProxyTokens.
+  Proofs.ProxyThm Proofs.ProxyFilters Proofs.ProxyGen Proofs.ProxySrc Gen.ProxyTokens.
 Import ListNotations RecordSetNotations.
 Open Scope Z_scope.
 
 Theorem c14_translator_ok : ProxyTokens_translator_ok = true.
 Proof. exact (eq_refl true). Qed.
+(* the switches read from the source on this run are the ones the family theorems were proved for *)
+Theorem c14_source_is_verified_source : proxy_src = src_tree.
+Proof. exact (eq_refl src_tree). Qed.
 
 (* ---- order, once per pass: EVERY chain, verdict script, phase and state ----
    the calls of one pass of phase p have strictly increasing configured indices (so each filter at most once), all at or after
@@ -32,6 +37,27 @@ Theorem c14_resume : forall src c p s,
   end.
 Proof. exact recv_pass_cursor. Qed.
 Print Assumptions c14_resume.
+
+(* ---- every stream starts at the head of its chain ----
+   the chain object of a finished stream is pooled (streamfilter.PutStreamFilterChain) and handed to a later stream; the code
+   in the tree zeroes both cursors at Put (switch read from the source on this run), so whatever the previous stream left,
+   the next request starts with cursor 0 - and by c14_order_once its first pass then reaches every BeforeRoute filter in
+   order.  With a Put that keeps the cursor the statement is false: the next stream skips its leading deny filter and the
+   request is forwarded (witness replayed by the harness on pairs of requests through the real pool). *)
+Definition c14_fresh_cursor_statement (src : srcp) : Prop :=
+  forall prev rc0, rcursor (next_request src prev rc0) = 0%nat /\ scursor (next_request src prev rc0) = 0%nat.
+Theorem c14_request_starts_at_chain_head : c14_fresh_cursor_statement proxy_src.
+Proof. exact (next_request_fresh proxy_src eq_refl). Qed.
+Print Assumptions c14_request_starts_at_chain_head.
+Theorem c14_stale_cursor_refuted : ~ c14_fresh_cursor_statement src_no_put_reset.   (* src_tree with put_resets_cursor := false *)
+Proof. exact refuted_stale_cursor. Qed.
+Example c14_stale_cursor_witness :
+  let s0 := next_request src_no_put_reset (final src_no_put_reset cfg_park drive) 0 in
+  let r := run src_no_put_reset cfg_deny_head s0 sched_plain in
+  rcursor s0 = 1%nat /\ g_new (gs_outs gs0 (snd r)) = 1%nat /\
+  filter (fun o => match o with OFilterRecv _ _ _ => true | _ => false end) (snd r) = [] /\
+  g_reply_kind (gs_outs gs0 (snd r)) = Some (KUp, 200).
+Proof. exact (proj2 witness_stale_cursor). Qed.
 
 (* ---- a denied request is never forwarded ---- *)
 Definition c14_denied_never_forwarded_statement (src : srcp) : Prop :=
